@@ -292,7 +292,68 @@ fn ambiguous_letters(spec: &OptSpec) -> Vec<char> {
         .collect()
 }
 
+/// `construct!(--name N, P).many()`: the two spellings of the named occurrences, with the words
+/// of the group written after them
+fn word_inside_repeated_group(case: &mut Case) {
+    let mk = |id: Id, names: Names, leaf: Leaf| {
+        Spec::Item(Item {
+            id,
+            names,
+            help: None,
+            leaf,
+        })
+    };
+    let root = Spec::Seq(vec![Spec::wrap(
+        W::Many { catch: false },
+        3,
+        Spec::Seq(vec![
+            mk(
+                1,
+                Names::long("name"),
+                Leaf::Arg {
+                    ty: Ty::Str,
+                    metavar: "N".into(),
+                    adjacent: false,
+                },
+            ),
+            mk(
+                2,
+                Names::default(),
+                Leaf::Pos {
+                    ty: Ty::Str,
+                    metavar: "P".into(),
+                    strict: Strict::Any,
+                },
+            ),
+        ]),
+    )]);
+    let b = Bench::new(case, OptSpec::plain(root));
+    let to = |xs: &[&str]| -> Vec<Vec<u8>> { xs.iter().map(|x| x.as_bytes().to_vec()).collect() };
+    let joined = to(&["--name=a", "--name=b", "x", "y"]);
+    let detached = to(&["--name", "a", "--name", "b", "x", "y"]);
+    let (o1, _) = b.run(case, &joined, "canonical");
+    let (o2, _) = b.run(case, &detached, "respelled");
+    case.rep.count("pairs");
+    if !same(&o1, &o2) && !matches!(o2, Outcome::Panic(_) | Outcome::FuelExhausted) {
+        case.rep.violation(
+            "respell:word-inside-repeated-group",
+            "respelling",
+            case.index,
+            b.detail(
+                &detached,
+                "respelled",
+                &format!("the outcome of {}: {}", show_argv(&joined).render(), o1.show()),
+                &o2,
+            ),
+        );
+    }
+}
+
 pub fn run_case(case: &mut Case) {
+    if case.index % 64 == 33 {
+        word_inside_repeated_group(case);
+        return;
+    }
     let mut rng = case.rng(0);
     let mut spec = gen_options(&mut rng, opts());
     if rng.chance(1, 4) && share_a_letter_between_commands(&mut spec, &mut rng) {
